@@ -296,6 +296,7 @@ SPECS["C11"] = {
     "level": "model_checking",
     "groups": [
         dict(PARSER, entries=[
+            {"name": "VerifC11_IncludedTypedefs", "flags": ["-unwind-violation", "-max-decisions", "1500", "-max-steps", "200000"], "quick": {"params": [0, 1]}, "thorough": {"params": [0, 1]}, "expect_reach": ["end", "same-name-re-export"]},
             {"name": "VerifC11_TypedefResolution", "flags": ["-unwind-violation", "-max-decisions", "1500"], "quick": {"params": [0, 1]}, "thorough": {"params": [0, 1, 2], "flags": ["-par", "6"]},
              "expect_reach": ["end", "accepted", "rejected"]},
             {"name": "VerifC11_ReferencedIncludes", "quick": {"params": [0]}, "thorough": {"params": [0]}},
